@@ -674,6 +674,11 @@ func C07(c *vh.Ctx) {
 			c07VarOne(c, vc)
 			return
 		}
+		var bc c07BindsCase
+		if c.LoadReplay(&bc) == nil && bc.DeclaredBinds != "" {
+			c07Binds(c, nil)
+			return
+		}
 		var cs c07Case
 		if c.LoadReplay(&cs) == nil {
 			c07One(c, cs)
@@ -682,9 +687,10 @@ func C07(c *vh.Ctx) {
 	}
 	k := c.Pick(2, 3)
 	c.Bound("max_hostile_dimensions", k)
-	c.Rule("dimensions spec-document / state / message / control / props / action behaviour / guard behaviour / error settings, each with a benign default and a list of hostile values; every combination with at most k non-default dimensions x every hostile value x base variant {Go structures with native actions, Go structures with ECMAScript, JSON text, YAML via jsccast/yaml, YAML via yaml.v2} x call {Walk, Step}; every call under a panic trap (+60 s hang horizon; scripts that loop run under a 25 ms deadline); where the reference walk/step is defined the result must equal it (failures surfaced as error states with error/lastNode/lastBindings). Plus messages whose values look like pattern variables (\"?x\", \"??x\", \"?<x\", \"?\", as values, keys, array members, the whole message) in histories of two and three, to a machine that binds with one of seven patterns and goes on listening with what it has bound. Duplicate-free odometer; non-trivial = combination exists in that base variant.")
+	c.Rule("dimensions spec-document / state / message / control / props / action behaviour / guard behaviour / error settings, each with a benign default and a list of hostile values; every combination with at most k non-default dimensions x every hostile value x base variant {Go structures with native actions, Go structures with ECMAScript, JSON text, YAML via jsccast/yaml, YAML via yaml.v2} x call {Walk, Step}; every call under a panic trap (+60 s hang horizon; scripts that loop run under a 25 ms deadline); where the reference walk/step is defined the result must equal it (failures surfaced as error states with error/lastNode/lastBindings). Plus messages whose values look like pattern variables (\"?x\", \"??x\", \"?<x\", \"?\", as values, keys, array members, the whole message) in histories of two and three, to a machine that binds with one of seven patterns and goes on listening with what it has bound. Plus action and guard sources that declare what they bind (binds: none / an empty set / one / two sets) x ten script endings (results, throws, scalar, null, nothing, endless loop, unexportable, NaN) x context live / cancelled x error routing: no panic, and the declaration does not change the outcome. Duplicate-free odometer; non-trivial = combination exists in that base variant.")
 	bases := []string{"go-native", "go-js", "json", "yaml-jsccast", "yaml-v2"}
 	var idx uint64
+	c07Binds(c, &idx)
 	// messages whose values look like pattern variables, in histories of up to three
 	for _, pat := range c07VarPatterns {
 		for _, m1 := range c07VarMsgs {
@@ -730,4 +736,133 @@ func C07(c *vh.Ctx) {
 		}
 	}
 	rec(0, k, c07Case{})
+}
+
+// ---- declared binds: an action or guard source may declare what it binds ("binds"); the declaration describes,
+// it does not change what happens - in particular not when the script fails -------------------------------------
+
+type c07BindsCase struct {
+	DeclaredBinds string `json:"declared_binds"` // none | empty-set | one | two
+	Script        string `json:"script"`
+	Where         string `json:"where"` // action | guard
+	Ctx           string `json:"ctx"`   // live | cancelled
+	Routing       string `json:"routing"`
+}
+
+var c07BindsScripts = map[string]string{
+	"ok":           `return {x: 1};`,
+	"ok-other":     `return {y: 2, z: [1]};`,
+	"throws":       `throw "no";`,
+	"throws-error": `throw new Error("no");`,
+	"scalar":       `return 7;`,
+	"null":         `return null;`,
+	"nothing":      `var a = 1;`,
+	"loop":         `while (true) {}`,
+	"unexportable": `return {f: function() {}};`,
+	"nan":          `return {n: 0/0};`,
+}
+
+var c07BindsScriptOrder = []string{"ok", "ok-other", "throws", "throws-error", "scalar", "null", "nothing", "loop", "unexportable", "nan"}
+
+func c07BindsSpec(cs c07BindsCase) *core.Spec {
+	var binds []match.Bindings
+	switch cs.DeclaredBinds {
+	case "empty-set":
+		binds = []match.Bindings{}
+	case "one":
+		binds = []match.Bindings{{"x": 1.0}}
+	case "two":
+		binds = []match.Bindings{{"x": "?v"}, {"y": 2.0}}
+	}
+	src := &core.ActionSource{Interpreter: "ecmascript", Source: c07BindsScripts[cs.Script], Binds: binds}
+	spec := &core.Spec{Name: "binds", Nodes: map[string]*core.Node{
+		"start": {Branches: &core.Branches{Type: "message", Branches: []*core.Branch{{Pattern: M{"go": "?g"}, Target: "act"}}}},
+		"done":  {},
+		"errh":  {},
+	}}
+	if cs.Where == "action" {
+		spec.Nodes["act"] = &core.Node{ActionSource: src, Branches: &core.Branches{Branches: []*core.Branch{{Target: "done"}}}}
+	} else {
+		spec.Nodes["act"] = &core.Node{Branches: &core.Branches{Type: "bindings", Branches: []*core.Branch{{GuardSource: src, Target: "done"}, {Target: "errh"}}}}
+	}
+	switch cs.Routing {
+	case "aen":
+		spec.ActionErrorNode = "errh"
+	case "aeb":
+		spec.ActionErrorBranches = true
+	}
+	return spec
+}
+
+func c07BindsObs(cs c07BindsCase) (string, bool, string) {
+	spec := c07BindsSpec(cs)
+	if err := spec.Compile(context.Background(), nil, true); err != nil {
+		return "compile: " + err.Error(), false, ""
+	}
+	ctx, cancel := context.WithCancel(context.Background())
+	defer cancel()
+	if cs.Ctx == "cancelled" {
+		cancel()
+	} else if cs.Script == "loop" {
+		var c2 context.CancelFunc
+		ctx, c2 = context.WithTimeout(ctx, 25*time.Millisecond)
+		defer c2()
+	}
+	o := doWalkCtx(ctx, spec, "start", M{"k": 1.0}, []interface{}{M{"go": 1.0}}, 10, "")
+	if o.Panicked {
+		return "", true, o.PMsg + " @" + o.Where
+	}
+	if o.Err != nil {
+		return "err: " + o.Err.Error(), false, ""
+	}
+	to := o.W.To()
+	if to == nil {
+		return "nowhere", false, ""
+	}
+	return to.NodeName + "/" + rstep.Canon(rstep.MaskErrors(M(to.Bs))) + "/" + rstep.Canon(nz(emittedOf(o.W))), false, ""
+}
+
+func c07Binds(c *vh.Ctx, idx *uint64) {
+	one := func(cs c07BindsCase) {
+		c.Eval()
+		base := cs
+		base.DeclaredBinds = "none"
+		want, bp, _ := c07BindsObs(base)
+		got, p, pm := c07BindsObs(cs)
+		c.Nontrivial()
+		if p {
+			c.Violation("C07/declared-binds/panic/"+cs.Where+"-"+cs.Script, fmt.Sprintf("%+v: Walk panicked: %s", cs, pm), cs)
+			return
+		}
+		if bp {
+			return // reported for the base case
+		}
+		if cs.Script == "loop" || cs.Ctx == "cancelled" {
+			return // where the interruption lands is not fixed; only totality is asked here
+		}
+		if got != want {
+			c.Violation("C07/declared-binds/changes-the-outcome/"+cs.Where+"-"+cs.Script, fmt.Sprintf("%+v: with the declaration the walk gives %s, without it %s", cs, got, want), cs)
+		}
+	}
+	if c.Replay != "" {
+		var cs c07BindsCase
+		if c.LoadReplay(&cs) == nil && cs.DeclaredBinds != "" {
+			one(cs)
+		}
+		return
+	}
+	for _, script := range c07BindsScriptOrder {
+		for _, where := range []string{"action", "guard"} {
+			for _, decl := range []string{"none", "empty-set", "one", "two"} {
+				for _, cx := range []string{"live", "cancelled"} {
+					for _, routing := range []string{"none", "aen", "aeb"} {
+						*idx++
+						if c.Mine(*idx) && !c.Expired() {
+							one(c07BindsCase{DeclaredBinds: decl, Script: script, Where: where, Ctx: cx, Routing: routing})
+						}
+					}
+				}
+			}
+		}
+	}
 }
